@@ -607,4 +607,11 @@ def get_current_registers(commands: List[T_Cmd]) -> Set[str]:
         for op in command.operands:
             if isinstance(op, Register):
                 current_registers.add(str(op))
+            elif isinstance(op, ArrayEntry):
+                if isinstance(op.index, Register):
+                    current_registers.add(str(op.index))
+            elif isinstance(op, ArraySlice):
+                for reg in [op.start, op.stop]:
+                    if isinstance(reg, Register):
+                        current_registers.add(str(reg))
     return current_registers
